@@ -627,6 +627,7 @@ static void myth_sched_loop(void)
       //next_run=myth_steal_from_others(env);
       next_run=g_myth_steal_func(env->rank);
     }
+    if (!next_run) MYTH_VERIF_SPIN(MYTH_VP_SCHED_IDLE, env);
     if (next_run)
       {
 	//sanity check
